@@ -1,6 +1,116 @@
-import IwModel.Model.JsonPatch
-/-! # C15 — JSON Patch gives the RFC 6902 result and a failed patch changes nothing -/
+import IwModel.Lemmas.JsonPatchRfc
+/-! # C15 — JSON Patch gives the RFC 6902 result and a failed patch changes nothing
+
+`Patch.*` is the model of `src/json/iwjson.c` with the `fix:` commits of design_notes/C15.md (tied to the code by
+`./vcheck C15`); `Rfc.step` / `Rfc.run` are RFC 6902 sections 3–4 over plain JSON values (`Model/JsonRfc.lean`).
+`erase` forgets the cached array indexes of a tree, `WF` says every cached index equals the element's position. -/
 namespace IwModel.C15
 open IwModel IwModel.Patch
+
+/-! ## The invariant the look-ups rely on -/
+
+/-- Trees produced by the parsers / `jbn_add_item` are well-formed. -/
+theorem parsed_wf (v : JVal) : WF (ofJ v) := wf_ofJ v
+
+/-- **klidx invariant, one operation.** Whatever a single operation does — any of the nine kinds (the six of RFC 6902,
+    `increment`, `add_create`, `swap`), applicable or not, failing half-way or not — afterwards every array child's
+    cached index again equals its position. (The code before fix 5966b62 did not have this property; `_jbl_node_find`
+    looks elements up by the cached index.) -/
+theorem klidx_inv (t : Node) (o : POp) (h : WF t) (hv : ∀ v, o.value = some v → WF v) : WF (applyOp t o).1 :=
+  wf_applyOp t o h hv
+
+/-- … hence after every prefix of every operation sequence, whether or not the sequence fails somewhere -/
+theorem klidx_inv_run (t : Node) (ops : List POp) (h : WF t) (hv : ∀ o ∈ ops, ∀ v, o.value = some v → WF v) :
+    WF (runOps t ops).1 := wf_runOps t ops h hv
+
+/-- … and for the tree entry points `jbn_patch` / `jbn_patch_auto` on *any* patch document, malformed ones included -/
+theorem klidx_inv_patch (root patch : Node) (h : WF root) (hp : WF patch) : WF (patchTree root patch).1 :=
+  wf_patchTree root patch h hp
+
+/-- the `kl=` flag compared by the correspondence check is exactly this invariant -/
+theorem klidx_check (n : Node) : klOk n = true ↔ WF n := klOk_iff n
+
+/-! ## Agreement with RFC 6902 -/
+
+/-- **RFC result, structural operations.** For every well-formed tree and every sequence of add / remove / replace /
+    move / copy operations — any length, any nesting, several operations on the same array, `-`, paths created by
+    earlier operations, from/path overlapping — if RFC 6902 defines the sequence as applicable with result `d'`, then
+    `_jbl_patch_node` succeeds and the patched tree denotes exactly `d'` (and is well-formed again).
+    `_partial`: `test` operations are not covered by this theorem (see `test_*` below), the pointer `/` is excluded
+    (open finding C15-slash-root), and index tokens must be read alike by code and RFC (`idx_agree_small`: true for
+    every token of at most nine bytes). -/
+theorem apply_rfc_partial (t : Node) (ops : List Rfc.Op) (d' : JVal) (h : WF t)
+    (hok : ∀ o ∈ ops, OpOk o ∧ isTest o = false) (hr : Rfc.run (erase t) ops = some d') :
+    ∃ t', runOps t (ops.map toPOp) = (t', .ok) ∧ erase t' = d' ∧ WF t' :=
+  runOps_of_run t ops d' h hok hr
+
+/-- the side condition on index tokens is no restriction in practice -/
+theorem idx_agree_small (seg : Bytes) (h : seg.length ≤ 9) : IdxAgree seg := idxAgree_small seg h
+
+/-- **Binary form.** `_jbl_patch` decodes the document, patches the tree and re-encodes: for a document `doc` and an
+    applicable sequence whose RFC result `d'` is an object or array (the only documents the binary form holds), the
+    holder ends up with exactly `d'` and the call reports success. -/
+theorem binary_rfc_partial (doc : JVal) (ops : List Rfc.Op) (d' : JVal)
+    (hok : ∀ o ∈ ops, OpOk o ∧ isTest o = false) (hr : Rfc.run doc ops = some d') (hc : isContainer d' = true) :
+    finishBinary doc (runOps (ofJ doc) (ops.map toPOp)) = (some d', .ok) := by
+  obtain ⟨t', h1, h2, _⟩ := runOps_of_run (ofJ doc) ops d' (wf_ofJ doc) hok (by rw [erase_ofJ]; exact hr)
+  rw [h1, finishBinary_ok doc t' (by rw [h2]; exact hc), h2]
+
+/-! ## A failed patch changes nothing (binary form) -/
+
+/-- **Atomicity.** Whatever the patch document is — well-formed or not, applicable or not — if `jbl_patch` /
+    `jbl_patch_from_json` report an error, the binary document is exactly what it was (the tree is patched on a decoded
+    copy and swapped in only at the end). -/
+theorem binn_atomic (doc : JVal) (patch : Node) :
+    ((patchBinary doc patch).2 ≠ .ok → (patchBinary doc patch).1 = some doc) ∧
+    ((patchFromJson doc patch).2 ≠ .ok → (patchFromJson doc patch).1 = some doc) := by
+  have key : (patchBinary doc patch).2 ≠ .ok → (patchBinary doc patch).1 = some doc := by
+    intro h
+    simp only [patchBinary] at h ⊢
+    split
+    · rfl
+    · rename_i ops hd
+      simp only [hd, applyBinary] at h ⊢
+      split
+      · rfl
+      · rename_i hne
+        simp only [hne, Bool.false_eq_true, ↓reduceIte, finishBinary_snd] at h
+        rw [finishBinary_err doc _ h]
+  refine ⟨key, ?_⟩
+  intro h
+  cases patch <;> first | rfl | (simp only [patchFromJson] at h ⊢; exact key h)
+
+/-- … and an error of the tree patch is the error the binary call reports (nothing is swallowed) -/
+theorem binary_error_reported (doc : JVal) (ops : List RawOp) (hne : ops.isEmpty = false) :
+    (applyBinary doc ops).2 = (patchNode (ofJ doc) ops).2 := by
+  simp [applyBinary, hne, finishBinary_snd]
+
+/-! ## Missing targets are errors (the part of "fails ⇒ error" that needs no RFC model) -/
+
+/-- `remove` / `replace` of a location that `_jbl_node_find` cannot reach report `JBL_ERROR_PATH_NOTFOUND` and leave
+    the tree untouched (before fix 82b0c6e: success). -/
+theorem missing_target_reported (t : Node) (p : Ptr) (v : Option Node) (hp : p ≠ []) (hs : p ≠ [[]])
+    (hm : detach t p = none) :
+    applyOp t { op := .remove, path := p, frm := none, value := none } = (t, .pathNotfound) ∧
+    applyOp t { op := .replace, path := p, frm := none, value := v } = (t, .pathNotfound) := by
+  have hr := oproot_false p hp hs
+  constructor <;> simp [applyOp, OpK.beq_eq, hm, hp, hs]
+
+/-! ## Non-vacuity and witnesses of the open findings on the model -/
+
+/-- the hypotheses of `apply_rfc_partial` are satisfiable: `{"a":[1,2,3]}` with
+    `[remove /a/0, replace /a/0 9]` (the witness of F11) gives `{"a":[9,3]}` -/
+example : ∃ t', runOps (ofJ (.obj [([97], .arr [.int 1, .int 2, .int 3])]))
+      ([Rfc.Op.remove [[97], [48]], Rfc.Op.replace [[97], [48]] (.int 9)].map toPOp) = (t', .ok) ∧
+    erase t' = .obj [([97], .arr [.int 9, .int 3])] := by
+  have hok : ∀ o ∈ [Rfc.Op.remove [[97], [48]], Rfc.Op.replace [[97], [48]] (.int 9)], OpOk o ∧ isTest o = false := by
+    intro o ho
+    simp only [List.mem_cons, List.not_mem_nil, or_false] at ho
+    rcases ho with rfl | rfl <;>
+      exact ⟨⟨fun s hs => idxAgree_small s (by simp [opPath] at hs; rcases hs with rfl | rfl <;> decide),
+              fun s hs => by simp [opFrom] at hs, by simp [opPath]⟩, rfl⟩
+  obtain ⟨t', h1, h2, _⟩ := apply_rfc_partial (ofJ (.obj [([97], .arr [.int 1, .int 2, .int 3])])) _
+    (.obj [([97], .arr [.int 9, .int 3])]) (wf_ofJ _) hok (by rw [erase_ofJ]; rfl)
+  exact ⟨t', h1, h2⟩
 
 end IwModel.C15
